@@ -612,7 +612,9 @@ int disasm_arm64(
 
           if (v == 1)
           {
-            size |= ((opcode >> 23) & 1) << 2;
+            // size is bits 31..30, opc<1> (bit 23) selects the 128 bit form.
+            size = ((opcode >> 30) & 0x3) | (((opcode >> 23) & 1) << 2);
+            if (size >= (int)sizeof(scalar_size)) { continue; }
             reg_name = scalar_size[size];
           }
             else
@@ -657,7 +659,9 @@ int disasm_arm64(
 
           if (v == 1)
           {
-            size |= ((opcode >> 23) & 1) << 2;
+            // size is bits 31..30, opc<1> (bit 23) selects the 128 bit form.
+            size = ((opcode >> 30) & 0x3) | (((opcode >> 23) & 1) << 2);
+            if (size >= (int)sizeof(scalar_size)) { continue; }
             reg_name = scalar_size[size];
           }
 
@@ -686,11 +690,14 @@ int disasm_arm64(
           imm = ((opcode >> 5) & 0x7ffff);
           imm = imm << 13;
           imm = imm >> (13 - 2);
-          char reg_name = (size & 1) == 0 ? 'x' : 'w';
+          // opc is bits 31..30 (bits 23..22 belong to imm19): w, x for the
+          // general registers and s, d, q for the SIMD and FP registers.
+          size = (opcode >> 30) & 0x3;
+          char reg_name = (size == 0) ? 'w' : 'x';
 
           if (v == 1)
           {
-            size |= ((opcode >> 23) & 1) << 2;
+            size += 2;
             if (size >= (int)sizeof(scalar_size)) { continue; }
             reg_name = scalar_size[size];
           }
